@@ -40,6 +40,7 @@ type FeedWorld struct {
 	hState    []string // open | closed | dead
 	feeds     []*fwFeed
 	bDropped  bool
+	recreated bool // B was dropped and created again at least once
 	deleted   bool
 	shutdown  bool // store shut down (deleted, or last on-disk handle closed)
 	step      int
@@ -48,7 +49,7 @@ type FeedWorld struct {
 func init() {
 	RegisterWorld("feeds", func(cfg Config) GenWorld {
 		w := &FeedWorld{cfg: cfg}
-		for i := 0; i < 2; i++ {
+		for i := 0; i < 3; i++ { // handle 2 never opens a collection: it only drops B or closes
 			b, err := rosmar.OpenBucket(BucketURL(cfg, "b1"), "b1", rosmar.CreateOrOpen)
 			must(err)
 			w.h = append(w.h, b)
@@ -80,7 +81,7 @@ func (w *FeedWorld) Alphabet(tier int) []string {
 		}
 	}
 	ops = append(ops, "start/0/A/hold", "start/1/AB/hold", "release/0", "release/1", "release/2")
-	ops = append(ops, "term/0", "term/1", "term/2", "drop/0", "drop/1", "close/0", "close/1", "delete/0", "delete/1")
+	ops = append(ops, "term/0", "term/1", "term/2", "drop/0", "drop/1", "drop/2", "recreate/0", "recreate/1", "close/0", "close/1", "close/2", "delete/0", "delete/1")
 	return ops
 }
 
@@ -200,6 +201,17 @@ func (w *FeedWorld) Apply(op string) (string, []Violation) {
 				}
 			}
 		}
+	case "recreate":
+		var hi int
+		fmt.Sscanf(parts[1], "%d", &hi)
+		if !w.bDropped || w.hState[hi] != "open" || w.shutdown {
+			return "skip", nil
+		}
+		if _, err := w.h[hi].NamedDataStore(NameB); err != nil {
+			c.add("C11", "recreate", "re-creating the dropped collection failed: %v", err)
+			break
+		}
+		w.bDropped, w.recreated = false, true
 	case "close":
 		var hi int
 		fmt.Sscanf(parts[1], "%d", &hi)
@@ -208,7 +220,7 @@ func (w *FeedWorld) Apply(op string) (string, []Violation) {
 		}
 		w.h[hi].Close(ctx)
 		w.hState[hi] = "closed"
-		if w.cfg.Disk && w.hState[0] != "open" && w.hState[1] != "open" && !w.shutdown {
+		if w.cfg.Disk && w.hState[0] != "open" && w.hState[1] != "open" && w.hState[2] != "open" && !w.shutdown {
 			w.shutdown = true
 			w.endAll("close")
 		}
@@ -267,7 +279,7 @@ func (w *FeedWorld) probe(c *checker) {
 	}
 	check("after the operation")
 	for hi, h := range w.h {
-		if w.hState[hi] != "open" || w.shutdown {
+		if w.hState[hi] != "open" || w.shutdown || hi == 2 {
 			continue
 		}
 		for _, cn := range []string{"A", "B"} {
@@ -278,6 +290,9 @@ func (w *FeedWorld) probe(c *checker) {
 			err := coll(h, nameOf(cn)).SetRaw(key, 0, nil, []byte(fmt.Sprintf("%d", w.step)))
 			if err != nil {
 				c.add("C16", "probe.write", "write to %s through open handle %d failed: %v", cn, hi, err)
+				if cn == "B" && w.recreated {
+					c.add("C11", "recreated.write", "B was dropped and created again, but a write to it through open handle %d fails: %v", hi, err)
+				}
 				continue
 			}
 			quiesce()
@@ -310,7 +325,7 @@ func (w *FeedWorld) probe(c *checker) {
 
 func (w *FeedWorld) Canon() string {
 	var b strings.Builder
-	fmt.Fprintf(&b, "h=%v drop=%v shut=%v|", w.hState, w.bDropped, w.shutdown)
+	fmt.Fprintf(&b, "h=%v drop=%v/%v shut=%v|", w.hState, w.bDropped, w.recreated, w.shutdown)
 	for _, f := range w.feeds {
 		var e []string
 		for _, cn := range f.colls {
@@ -320,6 +335,13 @@ func (w *FeedWorld) Canon() string {
 		fmt.Fprintf(&b, "%v/%v/%v/%v/%v/%v;", e, f.dump, f.viaBkt, f.rec.TermClosed, f.hold, f.rec.Holding)
 	}
 	fmt.Fprintf(&b, "|impl:%v %v %v", rosmar.VerifFeedCounts(w.h[0]), rosmar.VerifHandleFeedMapNil(w.h[0]), rosmar.VerifHandleFeedMapNil(w.h[1]))
+	if w.recreated && !w.shutdown {
+		for hi := 0; hi < 2; hi++ {
+			if w.hState[hi] == "open" {
+				fmt.Fprintf(&b, " cache%d=%s", hi, CacheState(w.h[hi]))
+			}
+		}
+	}
 	return b.String()
 }
 
